@@ -6,7 +6,7 @@ package storage
 // `go build -overlay`; not part of the repository). Page codec driver: C12.
 //
 // Nodes are built with the package's own cell operations (insertLeafCell,
-// appendInternalCell, insertInternalCell, split), stored with
+// appendInternalCell, insertInternalCell, split, updateCell), stored with
 // fileStore.update and read back with fileStore.fetch; this file only
 // forwards calls and copies fields out.
 
@@ -68,6 +68,13 @@ func (v *VerifCodecNode) InsertLeaf(key uint32, val []byte) (err error) {
 		return fmt.Errorf("key %d exists", key)
 	}
 	return v.n.insertLeafCell(uint32(off), key, val)
+}
+
+// UpdateLeaf replaces the value of the cell with the given key through
+// btreeNode.updateCell (what UPDATE and log replay do to a cached page).
+func (v *VerifCodecNode) UpdateLeaf(key uint32, val []byte) (err error) {
+	defer verifCodecRecover(&err)
+	return v.n.updateCell(key, val)
 }
 
 func (v *VerifCodecNode) AppendInternal(key uint32, child uint64) (err error) {
